@@ -12,6 +12,7 @@ RULE = ('bucket mode: case = (capacity, rate, history of non-blocking / blocking
         'MAX_UPDATES_PER_SECOND incl. shutdownModifyUpdateSpeed(); the same window oracle on the virtual call times of '
         'database.create()/write(); non-trivial = history with >=1 refused or delayed acquisition; distinct = histories')
 RULE_MORE = (' Writer mode also has persistent backend conditions (disk full, every write failing), series with 1000-3000 cached points and series under CARBON_METRIC_PREFIX; sched mode also raises the limits at shutdown and treats errors logged by the writer loop as violations.')
+RULE_MORE = RULE_MORE + ' Rounds 10-11: the writer under a bounded cache with flow control and an overloading sender; all write strategies in writer mode; faults carrying an errno.'
 RULE = RULE + RULE_MORE
 EXHAUSTIVE = {'quick': False, 'thorough': False}
 EXHAUSTIVE_OVER = 'all grant pairs (i, j) of every executed history'
